@@ -672,3 +672,47 @@ def identity_comparisons(rel, qual):
             o.meta = {'base': '%s::%s/identity-comparison#%s' % (rel, qual, ast.unparse(n).replace(' ', '_'))}
             obs.append(o)
     return obs, sha
+
+
+def purity(rel, qual, allowed_self_stores=()):
+    """A callee the deductive tier treats as a deterministic function of its arguments (a typed uninterpreted function): decided on
+    its text —
+      no-randomness    no reference to numpy.random / random / a `prng` object, no call of time / os.urandom / id / hash
+      no-hidden-state  no `global` / `nonlocal`, no store to an attribute of self (other than the listed ones) and no read of an
+                       attribute of self that the same method stores (state carried from call to call)
+    Callees outside the repository (numpy, scipy) are assumed deterministic; repository callees are judged where they are listed."""
+    fn, _, sha = frontend.get_function(rel, qual)
+    obs = []
+
+    def add(name, ok, detail):
+        o = Obligation('%s::%s/pure#%s' % (rel, qual, name), [], None, function='%s::%s' % (rel, qual), kind='frame')
+        o.verdict = 'discharged' if ok else 'refuted'
+        o.backend = 'purity scan of the function text (pv/vc/frames.py)'
+        o.model = {} if ok else detail
+        o.meta = {'base': o.name}
+        obs.append(o)
+    rnd = []
+    for n in ast.walk(fn):
+        if isinstance(n, ast.Attribute):
+            t = ast.unparse(n).replace(' ', '')
+            if t.startswith(('np.random', 'numpy.random', 'random.')) or '.random.' in t or t.split('.')[0] in ('prng', 'rng'):
+                rnd.append((t, n.lineno))
+        if isinstance(n, ast.Name) and n.id in ('prng', 'rng', 'urandom'):
+            rnd.append((n.id, n.lineno))
+        if isinstance(n, ast.Call) and ast.unparse(n.func) in ('time.time', 'os.urandom', 'id', 'hash', 'time.perf_counter'):
+            rnd.append((ast.unparse(n.func), n.lineno))
+    add('no-randomness', not rnd, dict(sources=rnd[:5]))
+    hidden = [('global/nonlocal', n.lineno) for n in ast.walk(fn) if isinstance(n, (ast.Global, ast.Nonlocal))]
+    stored = set()
+    for n in ast.walk(fn):
+        tgts = n.targets if isinstance(n, ast.Assign) else [n.target] if isinstance(n, (ast.AugAssign, ast.AnnAssign)) else []
+        for t in tgts:
+            for x in ast.walk(t):
+                r = x
+                while isinstance(r, ast.Subscript):
+                    r = r.value
+                if self_attr(r) and isinstance(getattr(x, 'ctx', None), ast.Store) and r.attr not in allowed_self_stores:
+                    stored.add(r.attr)
+                    hidden.append(('store to self.%s' % r.attr, x.lineno))
+    add('no-hidden-state', not hidden, dict(found=hidden[:5]))
+    return obs, sha
